@@ -450,6 +450,58 @@ fn answer(a: &[&str]) -> String {
             };
             format!("N {} {} {}", bw, hex(&out), text_len)
         }
+        // dt_roundtrip Date|Time|DateTime <constructor[/date ctor[/time ctor]]> y:mo:d:h:mi:s:f:fp:off -> "SAME <text>" | "DIFF <text> <why>" | "REFUSED"
+        "dt_roundtrip" => {
+            use dicom_core::value::deserialize::{parse_date_partial, parse_datetime_partial, parse_time_partial};
+            use dicom_core::value::{DicomDate, DicomDateTime, DicomTime};
+            let f: Vec<i64> = a[3].split(':').map(|x| x.parse().unwrap()).collect();
+            let (y, mo, d, h, mi, s, fr, _fp, off) = (f[0] as u16, f[1] as u8, f[2] as u8, f[3] as u8, f[4] as u8, f[5] as u8, f[6] as u32, f[7] as u8, f[8] as i32);
+            let parts: Vec<&str> = a[2].split('/').collect();
+            let mk_date = |name: &str| match name { "from_y" => DicomDate::from_y(y), "from_ym" => DicomDate::from_ym(y, mo), _ => DicomDate::from_ymd(y, mo, d) };
+            let mk_time = |name: &str| match name {
+                "from_h" => DicomTime::from_h(h), "from_hm" => DicomTime::from_hm(h, mi), "from_hms" => DicomTime::from_hms(h, mi, s),
+                "from_hms_milli" => DicomTime::from_hms_milli(h, mi, s, fr), _ => DicomTime::from_hms_micro(h, mi, s, fr),
+            };
+            match a[1] {
+                "Date" => {
+                    let v = match mk_date(parts[0]) { Ok(v) => v, Err(_) => return "REFUSED".into() };
+                    let t = v.to_encoded();
+                    let bl = PrimitiveValue::from(v).calculate_byte_len();
+                    match parse_date_partial(t.as_bytes()) {
+                        Ok((b, rest)) if b == v && rest.is_empty() && bl == (t.len() + 1) & !1 => format!("SAME {}", t),
+                        Ok((b, rest)) => format!("DIFF {} parsed={:?} rest={} byte_len={}", t, b, rest.len(), bl).replace(' ', "_").replacen('_', " ", 1),
+                        Err(e) => format!("DIFF {} error={}", t, e).replace(' ', "_").replacen('_', " ", 1),
+                    }
+                }
+                "Time" => {
+                    if parts[0] == "from_hmsf" { return "REFUSED hmsf_is_private".into(); }
+                    let v = match mk_time(parts[0]) { Ok(v) => v, Err(_) => return "REFUSED".into() };
+                    let t = v.to_encoded();
+                    let bl = PrimitiveValue::from(v).calculate_byte_len();
+                    match parse_time_partial(t.as_bytes()) {
+                        Ok((b, rest)) if b == v && rest.is_empty() && bl == (t.len() + 1) & !1 => format!("SAME {}", t),
+                        Ok((b, rest)) => format!("DIFF {} parsed={:?} rest={} byte_len={}", t, b, rest.len(), bl).replace(' ', "_").replacen('_', " ", 1),
+                        Err(e) => format!("DIFF {} error={}", t, e).replace(' ', "_").replacen('_', " ", 1),
+                    }
+                }
+                _ => {
+                    let date = match mk_date(parts[1]) { Ok(v) => v, Err(_) => return "REFUSED".into() };
+                    let offset = match dicom_core::chrono::FixedOffset::east_opt(off) { Some(o) => o, None => return "REFUSED".into() };
+                    let v = if parts.len() > 2 {
+                        let t = match mk_time(if parts[2] == "from_hmsf" { "from_hms_micro" } else { parts[2] }) { Ok(v) => v, Err(_) => return "REFUSED".into() };
+                        let r = if parts[0].contains("time_zone") { DicomDateTime::from_date_and_time_with_time_zone(date, t, offset) } else { DicomDateTime::from_date_and_time(date, t) };
+                        match r { Ok(v) => v, Err(_) => return "REFUSED".into() }
+                    } else if parts[0].contains("time_zone") { DicomDateTime::from_date_with_time_zone(date, offset) } else { DicomDateTime::from_date(date) };
+                    let t = v.to_encoded();
+                    let bl = PrimitiveValue::from(v).calculate_byte_len();
+                    match parse_datetime_partial(t.as_bytes()) {
+                        Ok(b) if b == v && bl == (t.len() + 1) & !1 => format!("SAME {}", t),
+                        Ok(b) => format!("DIFF {} parsed={:?} byte_len={}", t, b, bl).replace(' ', "_").replacen('_', " ", 1),
+                        Err(e) => format!("DIFF {} error={}", t, e).replace(' ', "_").replacen('_', " ", 1),
+                    }
+                }
+            }
+        }
         // c04_tokens codec default|nochange token... -> "N - <hex of the stream>"
         //   tokens: S:gggg,eeee,len  I:len  i  s  P  E:gggg,eeee,US,v,v..  E:gggg,eeee,VR,texthex  F:hex  O:n,n
         "c04_tokens" => {
